@@ -31,7 +31,7 @@ for i in $(seq 1 $P); do
   mkdir -p "$WORK/c$i" "$WORK/a$i"
   cp corpus/$TARGET/* "$WORK/c$i/" 2>/dev/null
   S=$(( (SEED * 1000003 + i * 7919) % 2147483647 + 1 ))
-  "$BIN" "$WORK/c$i" -artifact_prefix="$WORK/a$i/" -runs=$RUNS -seed=$S -len_control=0 -max_len=512 -timeout=120 -rss_limit_mb=4096 -print_final_stats=1 >"$LOG/p$i.log" 2>&1 &
+  "$BIN" "$WORK/c$i" -artifact_prefix="$WORK/a$i/" -runs=$RUNS -seed=$S -len_control=0 -max_len=2304 -timeout=120 -rss_limit_mb=4096 -print_final_stats=1 >"$LOG/p$i.log" 2>&1 &
 done
 wait
 T1=$(date +%s)
@@ -72,7 +72,7 @@ try:
     e = json.load(open(path))
     e["coverage"]["libfuzzer"] = {"target": target, "processes": int(p), "runs_per_process": int(runs), "executions": int(execs),
         "max_edge_coverage": int(cov or 0), "artifacts": int(nart), "wall_s": int(secs), "seed": int(seed),
-        "options": "-len_control=0 -max_len=512, seed corpus fuzzproj/corpus/%s, oracle inside the target" % target}
+        "options": "-len_control=0 -max_len=2304, seed corpus fuzzproj/corpus/%s, oracle inside the target" % target}
     e["coverage"]["evaluations"] = int(e["coverage"]["evaluations"]) + int(execs)
     json.dump(e, open(path, "w"), indent=2)
 except Exception as ex:
